@@ -425,6 +425,8 @@ func runC19(c *Ctx) {
 	storeGuards(c)
 	retrieveValidates(c)
 	wrappersPropagate(c)
+	storeSuccessPublishes(c)
+	retrieveReadsWholeEntry(c)
 }
 
 // storeGuards: C19-D4.
@@ -871,4 +873,220 @@ func runC20(c *Ctx) {
 		return true
 	})
 	c.check(okCleanup, R2, storeFn+"#cleanup", c.P.Pos(badPos), "every failure exit after CreateTemp removes the temporary", "a failure exit after the temporary file exists does not remove it: stale temporaries accumulate next to the entries")
+}
+
+// storeSuccessPublishes: C19 round trip, necessary condition on Store — a nil error is only ever
+// returned after the entry was made visible under its final name. A success return that does not
+// pass through the publishing call (a "nothing changed" shortcut, a skipped write) acknowledges a
+// store that did not happen.
+func storeSuccessPublishes(c *Ctx) {
+	const R = "store-success-publishes"
+	c.rule(R, "every return of Store (and of the helper that publishes the entry) whose error may be nil is dominated by the call that renames/creates the final entry; returns before it carry an error constructed by fmt.Errorf/errors.New or an error variable inside its `!= nil` branch")
+	d := c.decl(R, storeFn)
+	if d == nil {
+		return
+	}
+	theProgram = c.P
+	pf, pcall, publishAt := protocolSite(c, d, func(pd *declInfo, cs callSite) bool {
+		switch cs.callee.FullName() {
+		case "os.WriteFile", "os.Rename", "os.Create", "os.OpenFile", "os.Link":
+			pdefs := singleDefs(pd.pkg, pd.fd.Body)
+			for _, a := range cs.call.Args {
+				if classifyPath(pd, a, pdefs, 0).kind == "final" {
+					return true
+				}
+			}
+		}
+		return false
+	})
+	if pcall == nil {
+		c.undecided(R, storeFn+"#publish", c.P.Pos(d.fd.Pos()), "the call that creates the final entry was not found in Store or a helper it calls")
+		return
+	}
+	check := func(fd *declInfo, publish ast.Node) {
+		n := 0
+		pchain := enclosing(fd.fd.Body, publish)
+		// the innermost block that holds the publishing statement
+		var pblock *ast.BlockStmt
+		for _, y := range pchain {
+			if b, ok := y.(*ast.BlockStmt); ok {
+				pblock = b
+			}
+		}
+		ast.Inspect(fd.fd.Body, func(node ast.Node) bool {
+			if _, isLit := node.(*ast.FuncLit); isLit {
+				return false
+			}
+			rs, ok := node.(*ast.ReturnStmt)
+			if !ok || len(rs.Results) == 0 {
+				return true
+			}
+			n++
+			res := rs.Results[len(rs.Results)-1]
+			construct := fmt.Sprintf("%s#return@%d", fd.name, n)
+			pos := c.P.Pos(rs.Pos())
+			// after the publishing call, in a block that contains it?
+			after := false
+			if rs.Pos() > publish.End() || (rs.Pos() > publish.Pos() && rs.End() <= enclosingStmtEnd(pchain)) {
+				for _, y := range enclosing(fd.fd.Body, rs) {
+					if y == ast.Node(pblock) {
+						after = true
+					}
+				}
+			}
+			// the return *is* the delegation to the publishing helper
+			if ce, isCall := res.(*ast.CallExpr); isCall && ast.Node(ce) == publish {
+				c.ok(R, construct, pos, "returns the publishing helper's result")
+				return true
+			}
+			if after {
+				c.ok(R, construct, pos, "after the entry was published")
+				return true
+			}
+			// before publication: the error must be known non-nil
+			nonNil := false
+			switch x := res.(type) {
+			case *ast.CallExpr:
+				if f, _ := typeutil.Callee(fd.pkg.TypesInfo, x).(*types.Func); f != nil {
+					switch f.FullName() {
+					case "fmt.Errorf", "errors.New", "errors.Join":
+						nonNil = true
+					}
+				}
+			case *ast.Ident:
+				if x.Name != "nil" {
+					for _, fa := range pathFactsGeneric(fd, rs, x) {
+						nonNil = nonNil || fa
+					}
+				}
+			}
+			c.check(nonNil, R, construct, pos, "failure return (non-nil error) before publication",
+				fmt.Sprintf("Store can return %s — possibly a nil error — on a path that never reaches the call publishing the entry (%s): a store is acknowledged although nothing was written under the final name", exprText(c.P.Fset, res), c.P.Pos(pcall.Pos())))
+			return true
+		})
+	}
+	check(d, publishAt)
+	if pf != nil && pf.obj != d.obj {
+		check(pf, pcall)
+	}
+	c.floor(R, 5, "failure returns and the final success return of Store")
+}
+
+func enclosingStmtEnd(chain []ast.Node) token.Pos {
+	// end of the innermost statement containing the publishing call (e.g. the if whose init calls Rename)
+	for i := len(chain) - 1; i >= 0; i-- {
+		if s, ok := chain[i].(ast.Stmt); ok {
+			if _, isExpr := s.(*ast.ExprStmt); isExpr {
+				continue
+			}
+			if _, isBlock := s.(*ast.BlockStmt); isBlock {
+				continue
+			}
+			return s.End()
+		}
+	}
+	return token.NoPos
+}
+
+// retrieveReadsWholeEntry: the bytes handed to the decoder are the whole final entry.
+func retrieveReadsWholeEntry(c *Ctx) {
+	const R = "retrieve-reads-whole-entry"
+	c.rule(R, "the byte slice Retrieve hands to proto.Unmarshal is the unmodified result of os.ReadFile(final entry) or io.ReadAll over the file opened at the final entry (optionally through bufio.NewReader): no size limit, partial read or re-slicing sits between the file and the decoder")
+	d := c.decl(R, retrieveFn)
+	if d == nil {
+		return
+	}
+	defs := singleDefs(d.pkg, d.fd.Body)
+	n := 0
+	for _, cs := range callsIn(d.pkg, d.fd.Body) {
+		full := cs.callee.FullName()
+		if !strings.HasSuffix(full, "proto.Unmarshal") && !strings.HasSuffix(full, ".UnmarshalOptions).Unmarshal") {
+			continue
+		}
+		if len(cs.call.Args) == 0 {
+			continue
+		}
+		n++
+		construct := fmt.Sprintf("%s#decoder-input@%d", retrieveFn, n)
+		ok, why := wholeFile(d, defs, cs.call.Args[0], 0)
+		pos := c.P.Pos(cs.call.Pos())
+		switch ok {
+		case 1:
+			c.ok(R, construct, pos, why)
+		case -1:
+			c.bad(R, construct, pos, "the decoder does not see the whole entry: "+why+" — a document stored successfully cannot be retrieved (or comes back without its trailing fields)")
+		default:
+			c.undecided(R, construct, pos, "cannot tell whether the decoder input is the whole entry: "+why)
+		}
+	}
+	if n == 0 {
+		c.undecided(R, retrieveFn+"#decoder-input", c.P.Pos(d.fd.Pos()), "no proto.Unmarshal call found in Retrieve")
+	}
+}
+
+// wholeFile: 1 = the expression is the complete content of a file, -1 = provably cut, 0 = unknown.
+func wholeFile(d *declInfo, defs map[types.Object]ast.Expr, e ast.Expr, depth int) (int, string) {
+	if depth > 6 {
+		return 0, "derivation too deep"
+	}
+	e = chase(d.pkg, defs, e)
+	switch x := e.(type) {
+	case *ast.ParenExpr:
+		return wholeFile(d, defs, x.X, depth+1)
+	case *ast.SliceExpr:
+		return -1, "the data is re-sliced (" + types.ExprString(x) + ")"
+	case *ast.CallExpr:
+		f, _ := typeutil.Callee(d.pkg.TypesInfo, x).(*types.Func)
+		if f == nil {
+			return 0, "dynamic call " + types.ExprString(x.Fun)
+		}
+		switch f.FullName() {
+		case "os.ReadFile", "io/ioutil.ReadFile":
+			return 1, "os.ReadFile reads the whole entry"
+		case "io.ReadAll", "io/ioutil.ReadAll":
+			if len(x.Args) == 1 {
+				return wholeReader(d, defs, x.Args[0], depth+1)
+			}
+		case "(*bytes.Buffer).Bytes":
+			return 0, "bytes.Buffer content (fill not followed)"
+		}
+		return 0, "result of " + f.FullName()
+	}
+	return 0, "expression " + types.ExprString(e)
+}
+
+func wholeReader(d *declInfo, defs map[types.Object]ast.Expr, e ast.Expr, depth int) (int, string) {
+	if depth > 6 {
+		return 0, "derivation too deep"
+	}
+	e = chase(d.pkg, defs, e)
+	switch x := e.(type) {
+	case *ast.ParenExpr:
+		return wholeReader(d, defs, x.X, depth+1)
+	case *ast.UnaryExpr:
+		if cl, ok := x.X.(*ast.CompositeLit); ok {
+			if t := d.pkg.TypesInfo.TypeOf(cl); t != nil && strings.HasSuffix(t.String(), "io.LimitedReader") {
+				return -1, "the file is read through an io.LimitedReader"
+			}
+		}
+	case *ast.CallExpr:
+		f, _ := typeutil.Callee(d.pkg.TypesInfo, x).(*types.Func)
+		if f == nil {
+			return 0, "dynamic call"
+		}
+		switch f.FullName() {
+		case "os.Open":
+			return 1, "io.ReadAll over the opened entry"
+		case "bufio.NewReader", "bufio.NewReaderSize":
+			if len(x.Args) >= 1 {
+				return wholeReader(d, defs, x.Args[0], depth+1)
+			}
+		case "io.LimitReader":
+			return -1, "the file is read through io.LimitReader (" + types.ExprString(x) + ")"
+		case "io.NewSectionReader":
+			return -1, "the file is read through an io.SectionReader"
+		}
+		return 0, "reader produced by " + f.FullName()
+	}
+	return 0, "reader " + types.ExprString(e)
 }
